@@ -830,6 +830,7 @@ func c05r6(c *RC) {
 			return "", err
 		}
 		alphaNormalise(f)
+		compareNormalise(f)
 		var o bytes.Buffer
 		if err := format.Node(&o, fs, f); err != nil {
 			return "", err
@@ -967,4 +968,27 @@ func renameFields(typ *ast.FuncType, names map[string]string) {
 			}
 		}
 	}
+}
+
+// compareNormalise rewrites every comparison into one spelling (a > b as
+// b < a, a >= b as b <= a, and the operands of == and != in text order), so
+// that a comparison written the other way round is not a difference.
+func compareNormalise(f *ast.File) {
+	ast.Inspect(f, func(n ast.Node) bool {
+		be, ok := n.(*ast.BinaryExpr)
+		if !ok {
+			return true
+		}
+		switch be.Op {
+		case token.GTR:
+			be.X, be.Y, be.Op = be.Y, be.X, token.LSS
+		case token.GEQ:
+			be.X, be.Y, be.Op = be.Y, be.X, token.LEQ
+		case token.EQL, token.NEQ:
+			if expr(be.X) > expr(be.Y) {
+				be.X, be.Y = be.Y, be.X
+			}
+		}
+		return true
+	})
 }
